@@ -20,6 +20,7 @@ RULE = ("cases = (api in {dumps,dump}, method, params, rpcid, version, methodres
         "enumerated product of directed tables (thorough: complete; quick: a seed-shifted 1/8 slice) plus seeded "
         "random deep params/results/Fault data. distinct = distinct argument tuples; non-trivial = the combination "
         "is one the property speaks about (judged by the reference builder), not merely executed.")
+RULE += (" " + 'Configs = default, 1.0, translation off (2.0 and 1.0), and one with its own serialize handler (Fault data must be converted by the rules of the Config in use).')
 ASSUMPTIONS = [
     "unjudged (executed, counted): both flags set; empty-string or bytes method name; rpcid of boolean/array/object type; "
     "a Fault passed without methodresponse; a method name together with methodresponse",
